@@ -24,12 +24,21 @@ import (
 type symTerm struct {
 	v     ssa.Value
 	isLen bool
+	fr    *Frame
+}
+
+// symKey: a term stands for a value in one activation (the same SSA value read
+// in two iterations of an unrolled loop, or in two inlined calls of a helper,
+// is two different quantities).
+type symKey struct {
+	v  ssa.Value
+	fr *Frame
 }
 
 type Sym struct {
 	terms []symTerm
-	val   map[ssa.Value]lin.Term
-	ln    map[ssa.Value]lin.Term
+	val   map[symKey]lin.Term
+	ln    map[symKey]lin.Term
 	// LoadRep, when set, canonicalises loads (two loads of the same location
 	// with no intervening store denote the same value).
 	LoadRep func(*ssa.UnOp) ssa.Value
@@ -61,7 +70,34 @@ func (z *Sym) bound(v ssa.Value) (ssa.Value, *Frame, bool) {
 }
 
 func NewSym() *Sym {
-	return &Sym{val: map[ssa.Value]lin.Term{}, ln: map[ssa.Value]lin.Term{}}
+	return &Sym{val: map[symKey]lin.Term{}, ln: map[symKey]lin.Term{}}
+}
+
+// activation: the frame (of z.frame's chain) in which v is defined.
+func (z *Sym) activation(v ssa.Value) *Frame {
+	var fn *ssa.Function
+	switch x := v.(type) {
+	case ssa.Instruction:
+		fn = x.Parent()
+	case *ssa.Parameter:
+		fn = x.Parent()
+	default:
+		return nil
+	}
+	b := blockOf(v)
+	for f := z.frame; f != nil; f = f.Parent {
+		if f.Iter != nil {
+			if b != nil && f.Iter.Loop.blocks[b] {
+				return f
+			}
+			continue
+		}
+		if f.Callee == fn {
+			return f
+		}
+		break
+	}
+	return nil
 }
 
 func (z *Sym) term(v ssa.Value, isLen bool) lin.Form {
@@ -69,19 +105,32 @@ func (z *Sym) term(v ssa.Value, isLen bool) lin.Form {
 	if isLen {
 		m = z.ln
 	}
-	t, ok := m[v]
+	key := symKey{v, z.activation(v)}
+	t, ok := m[key]
 	if !ok {
 		t = lin.Term(len(z.terms))
-		z.terms = append(z.terms, symTerm{v, isLen})
-		m[v] = t
+		z.terms = append(z.terms, symTerm{v, isLen, key.fr})
+		m[key] = t
 	}
 	return lin.V(t)
+}
+
+// in evaluates f with z.frame set to fr.
+func (z *Sym) in(fr *Frame, f func() lin.Form) lin.Form {
+	old := z.frame
+	z.frame = fr
+	defer func() { z.frame = old }()
+	return f()
 }
 
 // TermValue returns what a term stands for.
 func (z *Sym) TermValue(t lin.Term) (ssa.Value, bool) {
 	return z.terms[t].v, z.terms[t].isLen
 }
+
+// TermFrame returns the activation (inlined call / loop iteration) the term's
+// value lives in; nil for the analysed function itself.
+func (z *Sym) TermFrame(t lin.Term) *Frame { return z.terms[t].fr }
 
 // Name renders a term.
 func (z *Sym) Name(t lin.Term) string {
@@ -124,10 +173,15 @@ func isIntT(t types.Type) bool {
 func (z *Sym) Of(v ssa.Value) lin.Form { return z.of(v, 0) }
 
 func (z *Sym) of(v ssa.Value, d int) lin.Form {
-	if d > 64 {
+	if d > 512 {
 		return z.term(v, false)
 	}
 	switch x := v.(type) {
+	case *ssa.Phi:
+		// a header φ of an unrolled loop, read in one of its iterations
+		if e, ef, ok := iterPhi(x, z.frame); ok {
+			return z.in(ef, func() lin.Form { return z.of(e, d+1) })
+		}
 	case *ssa.Const:
 		if x.Value != nil && x.Value.Kind() == constant.Int {
 			if b, ok := new(big.Int).SetString(x.Value.ExactString(), 10); ok {
@@ -186,13 +240,17 @@ func (z *Sym) of(v ssa.Value, d int) lin.Form {
 func (z *Sym) LenOf(v ssa.Value) lin.Form { return z.lenOf(v, 0) }
 
 func (z *Sym) lenOf(v ssa.Value, d int) lin.Form {
-	if d > 64 {
+	if d > 512 {
 		return z.term(v, true)
 	}
 	if _, _, n, ok := fixedView(v); ok {
 		return lin.K(n)
 	}
 	switch x := v.(type) {
+	case *ssa.Phi:
+		if e, ef, ok := iterPhi(x, z.frame); ok {
+			return z.in(ef, func() lin.Form { return z.lenOf(e, d+1) })
+		}
 	case *ssa.Const:
 		if x.Value == nil {
 			return lin.K(0)
@@ -227,7 +285,17 @@ func (z *Sym) lenOf(v ssa.Value, d int) lin.Form {
 		if _, isSl := x.X.Type().Underlying().(*types.Slice); isSl {
 			return z.lenOf(x.X, d+1).Sub(lo)
 		}
+	case *ssa.Index:
+		if el, ef, ok := elemLoad(x, z.frame); ok {
+			return z.in(ef, func() lin.Form { return z.lenOf(el, d+1) })
+		}
 	case *ssa.UnOp:
+		if x.Op == token.MUL {
+			// element of a local constant table
+			if el, ef, ok := elemLoad(x, z.frame); ok {
+				return z.in(ef, func() lin.Form { return z.lenOf(el, d+1) })
+			}
+		}
 		if x.Op == token.MUL && z.LoadRep != nil {
 			if rep := z.LoadRep(x); rep != ssa.Value(x) {
 				return z.lenOf(rep, d+1)
